@@ -64,6 +64,25 @@ let cont_int c =
   Printf.sprintf "f=%s b=%s s=%s" (join "," slot_str c.c_pool.p_free)
     (join "," (fun s -> string_of_int (int_of_nat s)) c.c_pool.p_blocks) (body_str c.c_body)
 
+
+(* ---- the cell machine (StableHeap.v) rendered like the node-level model ---- *)
+let hdr_int k hp h =
+  let fr = free_walk hp (nat_of_int 300) h.hd_free in
+  let body =
+    if is_hashk k then begin
+      let ids_of_chain d b =
+        let rec go fuel p acc = if fuel = 0 then List.rev acc else match p with
+          | PItem s -> go (fuel - 1) (hget hp s).c_nextcell ((match (hget hp s).c_obj with Some o -> string_of_int (int_of_nat o.o_id) | None -> "?") :: acc)
+          | _ -> List.rev acc in
+        go 300 (hget hp (d, nat_of_int b)).c_nextcell [] in
+      let cap = int_of_nat h.hd_cap in
+      match h.hd_data with
+      | None -> Printf.sprintf "%d;-;" cap
+      | Some d -> Printf.sprintf "%d;%d;%s" cap (int_of_nat d)
+                    (String.concat "/" (List.init cap (fun b -> String.concat "." (ids_of_chain d b))))
+    end else "-" in
+  Printf.sprintf "f=%s b=%s s=%s" (join "," slot_str fr) (join "," (fun s -> string_of_int (int_of_nat s)) h.hd_blocks) body
+
 (* ---- parsing observations back (judge mode) ---- *)
 let parse_slot s = match String.split_on_char '.' s with
   | [a; b] -> (nat_of_int (int_of_string a), nat_of_int (int_of_string b))
@@ -137,6 +156,17 @@ let () =
                  (int_of_nat (length (elems (sel st'))))
                  (join "," node_str (elems st'.s_a)) (join "," node_str (elems st'.s_b))
                  (join "," event_str ev) (cont_int st'.s_a) (cont_int st'.s_b));
+         (k, cap, st'))
+      (fun _ -> ())
+  else if mode = "heap" then
+    run_cases file (fun cfg -> let (k, cap) = parse_cfg cfg in (k, cap, linit cap))
+      (fun (k, cap, st) _ toks ->
+         let (st', ev) = lstep k cap st (parse_op toks) in
+         let ob = lobserve st' in
+         emit (Printf.sprintf "n=%d stale=0 findbad=0 | A=%s B=%s | ev=%s | A:%s B:%s"
+                 (int_of_nat (lsel st').hd_size)
+                 (join "," node_str ob.ob_a) (join "," node_str ob.ob_b)
+                 (join "," event_str ev) (hdr_int k st'.l_heap st'.l_a) (hdr_int k st'.l_heap st'.l_b));
          (k, cap, st'))
       (fun _ -> ())
   else if mode = "judge" then begin
